@@ -37,8 +37,18 @@ REQUIRED_REACH = ['CompositionConversionMCNPToT4.py:compositionConversionMCNPToT
 
 FAMILIES = ['atom-massrho', 'mass-massrho', 'atom-atomrho', 'natural',
             'suffixes', 'keywords', 'many-entries', 'exponents', 'heavy-z',
-            'two-densities', 'mixed-signs']
+            'two-densities', 'repeated-nuclide', 'mixed-signs']
 _PER = {'quick': 14, 'thorough': 800}
+
+
+def attach_monitors():
+    from .. import monitors
+    monitors.attach_contracts()
+
+
+def monitor_counts():
+    from .. import monitors
+    return dict(monitors.COUNTS)
 
 
 def plan(tier):
@@ -94,6 +104,14 @@ def build(case):
             nent = rng.randint(6, 12)
         entries = [(zaid(rng, fam), fraction(rng, fam, negative))
                    for _ in range(nent)]
+        if fam == 'repeated-nuclide':
+            # the same nuclide listed more than once (different libraries):
+            # legal in MCNP, each entry keeps its own fraction
+            base = [zaid(rng, fam).split('.')[0] for _ in range(rng.randint(1, 3))]
+            names = base + [rng.choice(base) for _ in range(rng.randint(1, 3))]
+            rng.shuffle(names)
+            entries = [(name + rng.choice(['.70c', '.80c', '.31c', '']),
+                        fraction(rng, fam, negative)) for name in names]
         if fam == 'mixed-signs':
             nent = max(nent, 2)
             entries = [(zaid(rng, fam), fraction(rng, fam, k % 2 == 0))
@@ -108,7 +126,8 @@ def build(case):
         deck.mats.append(M.Material(mid_num, entries, keywords))
         # densities
         dens = []
-        if fam == 'atom-atomrho' or (not negative and rng.random() < 0.35):
+        if fam == 'atom-atomrho' or (not negative and rng.random() < (
+                0.8 if fam == 'repeated-nuclide' else 0.35)):
             dens.append(rng.choice(['0.0602', '8.5e-2', '1.0', '4.2E-02']))
         if fam != 'atom-atomrho':
             dens.append('-' + rng.choice(['1.0', '2.7', '10.5', '0.998',
